@@ -348,6 +348,8 @@ def find_api_functions(ctx: Ctx) -> Tuple[Func, Func]:
         raise AnchorError("role top-level-evaluation (user call + context set in dds._api) not found")
     if nested is None:
         raise AnchorError("role nested-evaluation (user call without context set in dds._api) not found")
+    from .roles import path_map_field
+    _PATH_MAP_FIELD[0] = path_map_field(ctx)
     ctx.report.roles[top.qname] = "role:top-level-evaluation"
     ctx.report.roles[nested.qname] = "role:nested-evaluation"
     return top, nested
@@ -599,14 +601,18 @@ def kinds_not_confused(ctx: Ctx, rule: str, modules: Iterable[str], what: str, c
     return len(kinds)
 
 
+_PATH_MAP_FIELD = ["requested_paths"]  # set by Ctx users through roles.path_map_field (the field may be renamed)
+
+
 def path_map_value(top: Func) -> Optional[ast.AST]:
     """the value given to the evaluation context's `requested_paths` field by the top-level function:
     `ctx._replace(requested_paths=X)` or a (re)construction `EvalContext(requested_paths=X, ...)` with a non-empty X"""
     req = None
+    _pmf = _PATH_MAP_FIELD[0]
     for n in top.own_nodes():
         if isinstance(n, ast.Call):
             for k in n.keywords:
-                if k.arg == "requested_paths":
+                if k.arg == _pmf:
                     v = k.value
                     empty = (isinstance(v, ast.Dict) and not v.keys) or (isinstance(v, ast.Call) and not v.args and not v.keywords)
                     if not empty:
